@@ -59,5 +59,8 @@ fn parse_comment<'n>(node: Node<'n, 'n>) -> Option<String> {
 }
 
 pub fn xml_name_to_rust_name(xml_name: &str) -> String {
-    to_pascal_case(xml_name)
+    let rust_name = to_pascal_case(xml_name);
+
+    // `Self` is a keyword that cannot name a type (and cannot be a raw identifier)
+    if rust_name == "Self" { "Self_".to_string() } else { rust_name }
 }
